@@ -157,6 +157,9 @@ func (r *Repr) sortOf(t types.Type) *Sort {
 	if s := abstractSort(t); s != nil {
 		return s
 	}
+	if isBigIntType(t) {
+		return IntS
+	}
 	if _, ok := t.Underlying().(*types.Interface); ok && !isErrorTypeV(t) {
 		return UnS(absSortNameV(t))
 	}
@@ -194,6 +197,9 @@ func (ii intInfo) max() *big.Int {
 
 // rangeOf: the range constraint of an Int-represented value of type t.
 func (r *Repr) rangeOf(x *Term, t types.Type) *Term {
+	if isMathInt(t) {
+		return TrueT
+	}
 	ii, ok := intInfoOf(t)
 	if !ok || r.isBV(t) || x.S != IntS {
 		return TrueT
